@@ -98,4 +98,14 @@ PROPS["C13"] = {
     "assumptions": [],
 }
 
+PROPS["C16"] = {
+    "modules": ["Foundation.Proofs.C16"],
+    "level_text": "Machine-checked: Put writes the inverse entry with the primary's bytes, so from an indexed state every sequence of put/add/sub/move (any kinds, tokens, addresses, to zero and back, failing or not) keeps inverse(kind,token,addr) = primary(kind,addr,token) (induction over the op list); listing owners then returns exactly the addresses with a non-zero direct read, with those amounts, each once; createIndex from legacy data establishes the invariant for its kind, keeps it when already indexed, and changes no balance and no other kind's entries. Tied to balance.* by random histories run directly and through the cache layers, optionally from legacy data + createIndex, comparing ListOwnersByToken with direct reads for the full matrix.",
+    "level_note": "Trusted: Lean kernel + 3 axioms; injectivity of Fabric's composite-key encoding; 0 = empty bytes = absent key; range iteration in key order (simulated peer); point operations through the cache are transparent (C12).",
+    "trusted_base": ["core/balance storage/operations/queries/indexer modelled by Foundation.Balance", "composite keys as structured triples"],
+    "hypotheses": ["legacy data has no inverse entries of the kind being indexed"],
+    "not_modelled": ["ListBalancesByAddress (primary-side listing)", "range reads inside a batch (bypass the cache by design)"],
+    "assumptions": [],
+}
+
 NOT_APPLICABLE = {}
